@@ -450,6 +450,18 @@ def run(case):
     declared = declared_languagesystems(spec.get("features"))
     violations = []
     nontrivial = False
+    # generated kerning that NO feature refers to (the feature files hold no GPOS of the user's:
+    # every pair-positioning lookup in the font is a generated one and must be reachable)
+    referenced = {li for _t, lis in graph["features"] for li in lis}
+    for li, lk in sorted(lks.items()):
+        if lk["type"] == 2 and li not in referenced:
+            gl = set()
+            for role, gs in otl.gpos_lookup_glyphs(lk).items():
+                gl |= gs
+            violations.append({"mech": "generated_kerning_lookup_in_no_feature", "detail": {
+                "lookup": li, "glyphs": sorted(gl - {"*"})[:12]}})
+        elif lk["type"] == 2:
+            bump("kerning_lookups_referenced_by_a_feature")
     for tag, ent in sorted(graph["scripts"].items()):
         systems = []
         if ent["dflt"] is not None:
@@ -543,6 +555,24 @@ def classify(v, case):
     supports that script: it is DFLT, or some exported glyph (not in public.skipExportGlyphs) is
     encoded with a code point that belongs to that script alone.  A script tag that nothing in
     the compiled font or the feature text stands for is a different failure -> None."""
+    if v.get("mech") == "langsys_lacks_generated_kerning":
+        # feaLib quirk reached through the kern writer's 'script X; language dflt;' statements:
+        # when the ONLY languagesystem statement of the file is 'X dflt', feaLib treats 'script X;'
+        # as "nothing to do" (and keeps its internal script at DFLT), and the following 'language
+        # dflt;' then selects (DFLT, dflt): the lookups land under DFLT.  Only a 'dist' block can
+        # start with such a statement (a 'kern' block starts with 'script DFLT;').
+        d = v["detail"]
+        declared = declared_languagesystems(case["ufo"].get("features"))
+        sole = len(declared) == 1 and list(declared) == [d["script"].ljust(4)] \
+            and d["script"].strip() != "DFLT" and d["language"].strip() == "dflt"
+        if sole and "dist" not in (d.get("reachable_features") or {}) \
+                and "kern" not in (d.get("reachable_features") or {}):
+            from ufo2ft.featureWriters.kernFeatureWriter import DIST_ENABLED_SCRIPTS
+            from fontTools import unicodedata as ftud_
+            if any(d["script"].ljust(4) in [t.ljust(4) for t in ftud_.ot_tags_from_script(sc)]
+                   for sc in DIST_ENABLED_SCRIPTS):
+                return "dist_kerning_of_sole_languagesystem_registered_under_DFLT"
+        return None
     if not v.get("mech", "").startswith("kern_script_lacks_positioning"):
         return None
     from fontTools import unicodedata as ftud
